@@ -15,7 +15,9 @@ REGISTRATION = {
                  "decision tables regenerated from the tree",
     "category": "proof",
     "text": "Kernel-checked theorems over an executable Lean model of kvcache.Causal (cells, cellRanges, rows). "
-            "The property itself is history_exposes_spec: from any configuration, after any history of ACCEPTED operations "
+            "The property itself is history_exposes_spec_total (repaired tree = /repo, NO guard: rejected batches and refused "
+            "removals included; the spec is told the cache's answers: rejected batch = eviction only, refused Remove = no-op) "
+            "and history_exposes_spec: from any configuration, after any history of ACCEPTED operations "
             "(stores with any placement, window eviction, defrag-and-retry, CopyPrefix, Remove with shift, SetCausal, reserve "
             "passes), every token of the next accepted batch is shown exactly (multiset of position, data identity, shift) the "
             "entries the location-free specification computes for that history plus the batch, filtered by sequence, position "
@@ -27,9 +29,9 @@ REGISTRATION = {
             "padded range covers the sequence; with SetCausal/Except: mask_exact_pass), reserve_mask_exact, canResume_sound "
             "(repaired CanResume approves only complete windows), inv_run. WrapperCache: wrapper_forward_refines, "
             "wrapper_rejected_batch_spec (a rejected wrapped batch leaves every wrapped cache's abstract state = before minus "
-            "eviction), wrapper_mask_exact; EncoderCache: encoder_cached_exact. Guards: AllSucceed (a refused Remove is "
-            "outside the refinement: pinned it leaves a half-done removal = finding F28 with witnesses; the repaired Remove is "
-            "proved atomic, removeV_error_unchanged); windowed caches refine a spec that contains the eviction (F15 known). "
+            "eviction), wrapper_mask_exact; EncoderCache: encoder_cached_exact. The pinned Remove left a half-done removal when it "
+            "refused (finding F28, fixed 524980fd8; witnesses F28_*; refused_remove_then_clear for the pinned code; the repaired "
+            "Remove is proved atomic, removeV_error_unchanged); windowed caches refine a spec that contains the eviction (F15 known). "
             "Tie: decision tables regenerated from the tree on every run (mask bit, eviction threshold, Remove outcome, CopyPrefix "
             "owners, StartForward placement over all 5-cell occupancy patterns) consumed by Tie/C06.lean with decide; model = code "
             "on thousands of generated histories per run (exposed entries + data per batch token, abstraction and exact "
@@ -50,6 +52,12 @@ REGISTRATION = {
 
 MODULES = ["OllamaVerif.Properties.C06", "OllamaVerif.Tie.C06"]
 THEOREMS = [
+    "OllamaVerif.C06.history_exposes_spec_total",
+    "OllamaVerif.C06.refines_run_total",
+    "OllamaVerif.C06.refines_step_total",
+    "OllamaVerif.C06.refines_total_nonvacuous",
+    "OllamaVerif.C06.specStepT_perm",
+    "OllamaVerif.C06.startForward_not_ok_abs",
     "OllamaVerif.C06.history_exposes_spec",
     "OllamaVerif.C06.refines_all_histories",
     "OllamaVerif.C06.forward_exposes_all_histories",
